@@ -717,6 +717,10 @@ impl PosixRawReader {
 
     // timeout is used only with /dev/tty on MacOs
     fn select(&mut self, timeout: Option<PollTimeout>, single_esc_abort: bool) -> Result<Event> {
+        if timeout.is_none() && !self.tty_in.buffer().is_empty() {
+            // type-ahead already read from the tty: select would not see it
+            return self.next_key(single_esc_abort).map(Event::KeyPress);
+        }
         let tty_in = self.as_fd();
         let sig_pipe = self
             .tty_in
